@@ -210,6 +210,32 @@ def rule_c(repo, res, m, meth, where):
     t = norm(vc) if vc is not None else ""
     ok = "self._verify_context_is_complete()" in t and "UnclosedNestedContextError" in t and "UnclosedBoundedBlockError" in t
     res.check(ok, "C21.c", "verify_complete:three-checks", "%s:SerDes.verify_complete" % where, "verify_complete must check unused values, unclosed nested contexts and unclosed bounded blocks", by="three checks present")
+    # _verify_context_is_complete checks EVERY target of the current context
+    vcc = sd.get("_verify_context_is_complete")
+    ok = False
+    det = "loop over self.cur_context not found"
+    if vcc is not None:
+        for loop in ast.walk(vcc):
+            if isinstance(loop, ast.For) and norm(loop.iter) in ("self.cur_context", "self.cur_context.keys()", "self.cur_context.items()", "list(self.cur_context)", "list(self.cur_context.keys())"):
+                tvar = dotted(loop.target) if isinstance(loop.target, ast.Name) else dotted(loop.target.elts[0]) if isinstance(loop.target, ast.Tuple) else None
+                skipped = []
+
+                def on(node, st, tvar=tvar):
+                    if isinstance(node, ast.Continue):
+                        if "verified" not in st.must:
+                            skipped.append("continue before the target is verified")
+                        return st
+                    if isinstance(node, ast.Call) and dotted(node.func) == "self._verify_target_complete" and node.args and dotted(node.args[0]) == tvar:
+                        return st.add("verified")
+                    return st
+
+                body = ast.FunctionDef(name="_", args=vcc.args, body=[ast.While(test=ast.Constant(value=True), body=list(loop.body) + [ast.Break()], orelse=[])], decorator_list=[], lineno=loop.lineno, col_offset=0)
+                ast.fix_missing_locations(body)
+                mf = MustFlow(body, on, node_types=(ast.Call, ast.Continue)).run()
+                ex = mf.normal_exit_state()
+                ok = not skipped and ex is not None and "verified" in ex.must
+                det = "; ".join(skipped) or "a path through the loop body does not call _verify_target_complete(target)"
+    res.check(ok, "C21.c", "_verify_context_is_complete:every-target", "%s:SerDes._verify_context_is_complete" % where, "every target of the context must be verified (unused values must make serialisation fail): %s" % det, by="_verify_target_complete(target) on every path of the loop over the context")
     vt = sd.get("_verify_target_complete")
     t = norm(vt) if vt is not None else ""
     ok = "not in self._cur_context_indices" in t and "UnusedTargetError" in t and "len(value)" in t
